@@ -12,7 +12,7 @@ CONSTANTS
   SecondInput = TRUE
   Tasks = {}
   TaskGuarded = TRUE
-  Cold = FALSE
+  Cold = TRUE
   Guarded = FALSE
   OpOf <- OpOfA
 INVARIANT Emit
